@@ -1,7 +1,7 @@
 PROPERTY = "C05"
 LEVEL = "proof"
 LEAN_MODULES = ["CifModel.Props.C05", "CifModel.Props.C04", "CifModel.Model.StoreSchema"]
-REQUIRED = ["CifModel.C05_atomic", "CifModel.C05_next_call_unaffected", "CifModel.Store.C05_paths_link",
+REQUIRED = ["CifModel.C05_atomic", "CifModel.C05_next_call_unaffected", "CifModel.C05_failed_call_restores_store", "CifModel.Store.C05_paths_link",
             "CifModel.C04_inv_reachable", "CifModel.C04_inv_gives_loop_keys", "CifModel.Store.schema_txmacros_link"]
 GEN = ["ErrCodes", "Schema"]
 FAMILIES = ["store"]
@@ -14,11 +14,9 @@ TRUSTED_BASE = [
 ]
 ASSUMPTIONS = ["prepared-statement recycling (PREPARE_STMT/DROP_STMT) is abstracted away: a statement is always usable; a stale statement would show as a "
                "later call failing in the correspondence run"]
-PARTIAL = ["C05_next_call_unaffected is proved for CIFs outside an iterator's transaction (the whole store is then identical); inside one the store is "
-           "identical up to left-over `savepoint s` entries that are snapshots of the unchanged content (C05_atomic) — that no later call can tell them "
-           "apart is stated (C05_next_call_unaffected_full), not proved"]
+PARTIAL = []
 LEVEL_TEXT = ("Proof: for EVERY op of the model (34 ops, arbitrary argument lists — so the offending element at every position — inside or outside "
               "an open iterator's transaction) a non-OK result leaves the content, the BEGIN snapshot and the autocommit status of every CIF unchanged.")
-LEVEL_NOTE = ("Left-over savepoints after a nested rollback are shown to be snapshots of the unchanged content; the second half of the property is proved "
-              "outside iterator transactions only. Trusted: Lean kernel, translator, SQLite semantics as modelled, executor/generator/oracle.")
+LEVEL_NOTE = ("Left-over savepoints after a nested rollback are shown to be snapshots of the unchanged content and invisible to every later call "
+              "(step_wsim / run_wsim), so the second half of the property holds inside iterator transactions too. Trusted: Lean kernel, translator, SQLite semantics as modelled, executor/generator/oracle.")
 TECHNIQUE = "Lean 4 proof (case analysis over all API ops on a transactional relational model) + differential execution with constructed failing calls"
